@@ -121,6 +121,16 @@ pub fn run_bita(cwd: &Path, spec: &RunSpec) -> RunOut {
             args.insert(1, "--http-header".into());
             args.insert(2, "X-Verif-Case: a b=c".into());
         }
+        // a retry budget changes nothing unless a transfer fails, and then only how often a range is asked for again:
+        // 1 HTTP clone in 4 gets --http-retry-count 1..3 (the checks that script transfer failures set it themselves)
+        if (h >> 16) % 4 == 0 && !args.iter().any(|a| a == "--http-retry-count") {
+            args.insert(1, "--http-retry-count".into());
+            args.insert(2, (1 + (h >> 20) % 3).to_string());
+            if !args.iter().any(|a| a == "--http-retry-delay") {
+                args.insert(3, "--http-retry-delay".into());
+                args.insert(4, "0".into());
+            }
+        }
     }
     // --buffered-chunks has a default (CPU cores x 2) that the generated configurations never use: leave the option out in
     // 1 run of 8 (not with memory-hungry compression levels: the default would run 32 encoders at once)
